@@ -54,7 +54,10 @@ func c21Run(r *simkit.Run) {
 		for i := range sizes {
 			sizes[i] = 0
 			if i < nblocks-1 {
-				sizes[i] = []int{350, 350, 700, 1100}[r.Choose(4)]
+				sizes[i] = []int{350, 350, 350, 700}[r.Choose(4)]
+				if r.Tier == "thorough" && r.Chance(1, 4) {
+					sizes[i] = 1100
+				}
 			}
 
 			mergeAfter[i] = true
